@@ -23,12 +23,15 @@ ASSUMPTIONS = [
     "trailing placement is claimed for '#' comments on non-repeatable single-line keywords; newlinechar LF",
 ]
 
-KINDS = ["#", "/**/", "2line"]
+KINDS = ["#", "/**/", "2line", "#odd"]
 
 
 def comment_text(kind, n):
     if kind == "#":
         return "# cmt%03d x" % n
+    if kind == "#odd":
+        # characters that str.splitlines() treats as line boundaries but that do not end a '#' comment in a Mapfile
+        return "# cmt%03d a\x0cb\x1cc\x85d\u2028e\u2029f\x0bg  h\tend" % n
     if kind == "/**/":
         return "/* cmt%03d x */" % n
     return "/* cmt%03d\n   more%03d */" % (n, n)
@@ -112,7 +115,7 @@ def render_with(tree, placements):
                 gaps[ti] = base[:k] + " " + c + base[k:]
         else:
             # inside values: a '#' comment runs to the end of the line, so the remaining values go on the next line
-            gaps[ti] = " " + c + ("\n" + ind + "    " if kind == "#" else " ")
+            gaps[ti] = " " + c + ("\n" + ind + "    " if kind in ("#", "#odd") else " ")
     tail = gaps.pop("tail", "")
     text, _ = D.render(tree, D.Style(gaps=gaps))
     return text + tail, src, toks
@@ -181,9 +184,9 @@ def judge(tree, placements):
     lines, _ = RD.split_lines(out, "\n")
     # a '#' comment inside the values spreads the statement over two lines: its end is then no longer
     # "the end of a line holding a single simple keyword" (not a documented site)
-    split_stmts = {id(key_token_before(toks, ti)) for (sid, cls, ti, how), kind, c in src if how == "inside_values" and kind in ("#", "2line")}
+    split_stmts = {id(key_token_before(toks, ti)) for (sid, cls, ti, how), kind, c in src if how == "inside_values" and kind in ("#", "2line", "#odd")}
     for (sid, cls, ti, how), kind, c in src:
-        if cls == "trail" and kind == "#":
+        if cls == "trail" and kind in ("#", "#odd"):
             kt = key_token_before(toks, ti)
             if id(kt) in split_stmts:
                 continue
@@ -230,9 +233,51 @@ def key_token_before(toks, ti):
     return toks[j]
 
 
+SCHED_DOCS = [
+    'MAP # c-map-1\n  NAME "one" # c-name-1\n  # above-layer-1\n  LAYER\n    TYPE POINT # c-type-1\n  END\nEND',
+    '# above-map-2\nMAP\n  NAME "two" # c-name-2\n  WEB # c-web-2\n    IMAGEPATH "/x" # c-path-2\n  END\nEND',
+]
+
+
+def run_sched(res, shard, nshards):
+    """the same clauses under threads: two concurrent loads(include_comments=True)+dumps of different documents must each write
+    exactly what they write sequentially (pre-emption bounded schedule exploration, shared with C12's scheduler)"""
+    import mappyfile
+
+    from .. import modstate, sched
+
+    def body(text):
+        return lambda: mappyfile.dumps(mappyfile.loads(text, include_comments=True))
+
+    modstate.restore()
+    seq = [("ok", body(t)()) for t in SCHED_DOCS]
+
+    def judge(results):
+        for i, (got, want) in enumerate(zip(results, seq)):
+            if got != want:
+                return "under this schedule thread %d writes comments it does not write sequentially: %r vs %r" % (i, str(got)[:200], str(want)[:200])
+        return None
+
+    sched.MAX_PER_LABEL[0] = 2
+    out = sched.explore(lambda: [body(t) for t in SCHED_DOCS], "line", 1, judge, shard, nshards)
+    res["evals"] += out["executions"]
+    for k in out["outcomes"]:
+        res["states"].add(R.h64(k))
+    R.add_outcome(res, "schedules_same_as_sequential", out["executions"] - len(out["violations"]))
+    for choices, msg, labels in out["violations"][:3]:
+        R.add_violation(res, "schedule|two commented loads", msg, {"schedule": choices}, None)
+    R.add_sub(res, "schedules of two concurrent commented load+dump calls (<=1 pre-emption, line granularity, <=2 points per code line and thread)", out["executions"])
+
+
+def init_worker():
+    from .. import modstate
+
+    modstate.snapshot()
+
+
 def units(tier):
     nb = len(bases(tier))
-    us = [("PAIRS", i, k) for i in range(nb) for k in range(8)] + [("S6", i) for i in range(16)]
+    us = [("SCHED", i, 16) for i in range(16)] + [("PAIRS", i, k) for i in range(nb) for k in range(8)] + [("S6", i) for i in range(16)]
     if tier == "thorough":
         us += [("TRIPLES", i) for i in range(nb)]
     return us
@@ -281,7 +326,7 @@ def run_base(res, idx, triples, shard=0):
         for a, b in itertools.combinations(sts, 2):
             if a[0] % 8 != shard:
                 continue
-            for ka, kb in (("#", "#"), ("#", "/**/"), ("/**/", "#"), ("2line", "#")):
+            for ka, kb in (("#", "#"), ("#", "/**/"), ("/**/", "#"), ("2line", "#"), ("#odd", "#")):
                 combos.append([(a, ka, 1), (b, kb, 2)])
         if shard == 0:
             combos.append([(s, KINDS[i % 2], i + 1) for i, s in enumerate(sts)])          # all sites filled
@@ -362,7 +407,9 @@ def run_corpus(res, shard):
 
 def run_unit(unit):
     res = R.new_result()
-    if unit[0] == "S6":
+    if unit[0] == "SCHED":
+        run_sched(res, unit[1], unit[2])
+    elif unit[0] == "S6":
         run_corpus(res, unit[1])
     else:
         run_base(res, unit[1], unit[0] == "TRIPLES", unit[2] if len(unit) > 2 else 0)
